@@ -65,8 +65,19 @@ class Worker:
         self.p = subprocess.Popen(self.argv, stdin=subprocess.PIPE, stdout=subprocess.PIPE,
                                   stderr=subprocess.DEVNULL, text=True, bufsize=1, env=self.env)
 
-    def ask(self, req):
-        """one request -> one response; a dead worker (abort, stack overflow) is reported and restarted"""
+    def ask(self, req, timeout=None):
+        """one request -> one response; a dead worker (abort, stack overflow) is reported and restarted;
+        with `timeout`, a worker that does not answer in time is killed and reported as died="timeout" """
+        timer, fired = None, []
+        if timeout:
+            def _kill(p=self.p):
+                fired.append(1)
+                try:
+                    p.kill()
+                except Exception:
+                    pass
+            timer = threading.Timer(timeout, _kill)
+            timer.start()
         try:
             self.p.stdin.write(json.dumps(req) + "\n")
             self.p.stdin.flush()
@@ -75,6 +86,19 @@ class Worker:
                 raise BrokenPipeError
             return json.loads(line)
         except (BrokenPipeError, OSError, json.JSONDecodeError):
+            if timer:
+                timer.cancel()
+            if fired:
+                try:
+                    self.p.wait(timeout=5)
+                except Exception:
+                    pass
+                self.start()
+                return {"id": req.get("id"), "died": "timeout"}
+            try:
+                self.p.wait(timeout=5)
+            except Exception:
+                pass
             rc = self.p.poll()
             try:
                 self.p.kill()
@@ -82,6 +106,9 @@ class Worker:
                 pass
             self.start()
             return {"id": req.get("id"), "died": rc if rc is not None else "unknown"}
+        finally:
+            if timer:
+                timer.cancel()
 
     def close(self):
         try:
@@ -95,7 +122,7 @@ class Pool:
     def __init__(self, argv, n=NPROC, env=None):
         self.workers = [Worker(argv, env) for _ in range(n)]
 
-    def map(self, reqs):
+    def map(self, reqs, timeout=None):
         """responses in request order"""
         out = [None] * len(reqs)
         n = len(self.workers)
@@ -103,7 +130,7 @@ class Pool:
         def work(k):
             w = self.workers[k]
             for i in range(k, len(reqs), n):
-                out[i] = w.ask(reqs[i])
+                out[i] = w.ask(reqs[i], timeout)
         ts = [threading.Thread(target=work, args=(k,)) for k in range(n)]
         for t in ts:
             t.start()
@@ -131,7 +158,7 @@ _cli_counter = [0]
 _cli_lock = threading.Lock()
 
 
-def run_cli(argv, files=None, stdin=b"", mtimes=None, timeout=60, keep=False):
+def run_cli(argv, files=None, stdin=b"", mtimes=None, timeout=60, keep=False, env_extra=None):
     """run the REAL cfn-guard binary (built from /repo) in a scratch directory; `{DIR}` in argv is
     replaced by that directory.  Returns dict(code, stdout, stderr)."""
     with _cli_lock:
@@ -150,10 +177,16 @@ def run_cli(argv, files=None, stdin=b"", mtimes=None, timeout=60, keep=False):
     args = [CLI_BIN] + [a.replace("{DIR}", d) for a in argv]
     env = dict(os.environ)
     env["NO_COLOR"] = "1"
+    for k, v in (env_extra or {}).items():
+        if v is None:
+            env.pop(k, None)
+        else:
+            env[k] = v
     try:
         p = subprocess.run(args, input=stdin if isinstance(stdin, bytes) else stdin.encode(), cwd=d,
                            stdout=subprocess.PIPE, stderr=subprocess.PIPE, timeout=timeout, env=env)
-        out = {"code": p.returncode, "stdout": p.stdout.decode("utf-8", "replace").replace(d, "{DIR}"),
+        out = {"code": p.returncode if p.returncode >= 0 else "signal%d" % -p.returncode,
+               "stdout": p.stdout.decode("utf-8", "replace").replace(d, "{DIR}").replace(d.lstrip("/"), "{DIR}"),
                "stderr": p.stderr.decode("utf-8", "replace").replace(d, "{DIR}")}
     except subprocess.TimeoutExpired:
         out = {"code": "timeout", "stdout": "", "stderr": ""}
